@@ -32,13 +32,16 @@ LEVEL_TEXT = (
     "of the common key and every list of distinct names; row sums of a matrix over its key halves (and equality "
     "with the full row sum under the coverage condition); empirical jdd of a network; mean = P-weighted mean; for a "
     "clean annotated network the row sum of the C13 matrix has the closed form (a_i+1)#{v: jd v = a+e_i}/sum_v jd_v[i] "
-    "and equals the excess distribution of the empirical jdd pointwise (handshake double counting). PARTIAL: the "
-    "dict-level network statement C14_network_full (excess_from_ejk o get_ejks returns exactly these dicts) is kept "
-    "as a Definition; proved is C14_network_partial (the pointwise identity) and the checker equivalence. All seven "
+    "and equals the excess distribution of the empirical jdd pointwise (handshake double counting). The dict-level "
+    "network statement C14_network_full is now PROVED in general (C14_network_full_proved): for every clean "
+    "annotated network with distinct names, excess_from_ejk(get_ejks g, excess keys) and forward(jdd_from_network g) "
+    "both succeed and return, for every topology, exactly the closed-form dict on exactly the excess keys "
+    "(coverage argument: under cleanness every end of a t-edge has jd[i] > 0; plumbing over the name list); hence "
+    "c14_check mode 4 is proved to accept the model's output for all such networks "
+    "(C14_model_passes_network_checker). C14_network_partial (the pointwise identity) is kept. All seven "
     "checkers are proved equivalent to the Prop-level specifications and run on the implementation's outputs.")
 LEVEL_NOTE = ("Trusted: Coq kernel; extraction + OCaml driver + Python harness; float outputs judged with tolerance "
-              "1e-9. Duplicate topology names are outside the theorems (distinct names are a hypothesis). The "
-              "plumbing part of C14_network_full is covered by the correspondence + c14_check mode 4 only. No axioms.")
+              "1e-9. Duplicate topology names are outside the theorems (distinct names are a hypothesis). No axioms.")
 
 EPS = [1, 10 ** 9]
 NAMES = c13.NAMES + ["3-clique-red", "", "k", "2-clique-green"]
